@@ -80,6 +80,11 @@ CHECKS = {
                      'get / get_batch with batch size and blocking flag, bounded and unbounded buffers) z3 decides over ALL interleavings at the pre-emption points that no deadlock '
                      'and no bad final state (element lost/duplicated/reordered, wrong end-of-stream payload) is reachable, and an unwinding query shows the depth bound is sufficient. '
                      'Quick: 2 threads; thorough: 3 threads and longer streams.'),
+    'C05': dict(engine='pybmc', level='model_checking', design_ref='DESIGN.md#c05', note=BM_NOTE, technique=BM_TECH,
+                text='Same encoding as C04 with faults as solver variables: the producer iterator raises at a symbolic position, a stopper thread calls maybe_stop()/maybe_stop(exc) '
+                     'anywhere in the interleaving, configured timeouts may fire at any wait. z3 decides per scenario: no deadlock; consumers observe the producer exception (never a clean '
+                     'end of stream, also when the queue is stopped and read again); no element twice; a stop request leaves no producer/consumer blocked (bounded buffer, batch consumer); '
+                     'starved get/put end in TimeoutError. Quick: 2 threads; thorough: 3 threads.'),
 }
 NA = {}
 PENDING = 'check not built yet (see DESIGN.md build order)'
